@@ -198,36 +198,32 @@ def parse(parser, cfg, toks, bound=None, step_budget=STEP_BUDGET):
     return "tree", root
 
 
-def table_diagnosis(parser, start, ref_table_fn):
+def table_diagnosis(parser, start):
     """Compare the implementation's parse table with the text-book table of *its own* factorized
     grammar; used only to give violations a specific signature.  -> short label."""
+    from models.grammar import nullables, ref_table
     try:
         pm = {x: tuple(tuple(r.production) for r in rules) for x, rules in parser.prods_map.items()}
-        ref = ref_table_fn(pm, start)
+        ref = ref_table(pm, start)
+        nul = nullables(pm)
         got = {}
         for (x, t), rules in parser.parse_table.items():
             if rules:
                 got[(x, t)] = [pm[x].index(tuple(r.production)) for r in rules]
         spurious_eps = spurious = missing = order = False
-        nul_alt = {}
-        from models.grammar import nullables
-        nul = nullables(pm)
         for key in set(ref) | set(got):
             r = ref.get(key, [])
             g = got.get(key, [])
             for i in g:
                 if i not in r:
-                    alt = pm[key[0]][i]
-                    if all(s in nul for s in alt):
-                        spurious_eps = True
+                    if all(s in nul for s in pm[key[0]][i]):
+                        spurious_eps = True      # entry of a nullable alternative: comes from FOLLOW
                     else:
-                        spurious = True
-            for i in r:
-                if i not in g:
-                    missing = True
+                        spurious = True          # entry of a non-nullable alternative: comes from FIRST
+            if any(i not in g for i in r):
+                missing = True
             if sorted(r) == sorted(g) and g != sorted(g):
                 order = True
-        del nul_alt
         if spurious_eps and not (spurious or missing):
             return "follow-set-too-large"
         if spurious and not missing:
